@@ -36,6 +36,8 @@ type probeHandler struct {
 	attrs  []slog.Attr
 }
 
+var debugLog = os.Getenv("VERIF_LOG") != ""
+
 func newProbeHandler() *probeHandler {
 	return &probeHandler{mu: &sync.Mutex{}, counts: map[string]int{}}
 }
@@ -51,6 +53,11 @@ func (h *probeHandler) Handle(_ context.Context, r slog.Record) error {
 	h.mu.Lock()
 	h.counts[key]++
 	h.mu.Unlock()
+	if debugLog {
+		line := r.Level.String() + " " + r.Message
+		r.Attrs(func(a slog.Attr) bool { line += " " + a.Key + "=" + a.Value.String(); return true })
+		fmt.Fprintln(os.Stderr, "    LS:", line)
+	}
 	return nil
 }
 func (h *probeHandler) WithAttrs(a []slog.Attr) slog.Handler { return h }
@@ -273,6 +280,13 @@ func (e *Env) run() {
 	}
 	e.Led = led
 	e.FS = NewFaultStore(nil, e.Prog.Faults)
+	e.FS.SnapshotSource = func() *State {
+		img, err := os.ReadFile(e.DBPath)
+		if err != nil || e.Led.PageSize == 0 {
+			return nil
+		}
+		return StateFromImage(img, e.Led.PageSize)
+	}
 	e.FS.BeforeCall = func(kind string, idx int) {
 		if goid() == e.mainGID {
 			synctest.Wait()
